@@ -14,7 +14,43 @@ use crate::spec::*;
 use proptest::prelude::*;
 use serde_json::{json, Value};
 
-const MAGNITUDES: [i32; 10] = [i32::MIN, -1, 0, 16, 256, 4096, 65536, 1 << 18, 1 << 20, 1 << 22];
+/// ascending in magnitude (negatives first); the sweep of one (instruction, position, base state) stops at
+/// the first failure, so the magnitudes above 2^22 are only executed by instructions whose
+/// allocation did not grow with the operand up to 2^22
+const MAGNITUDES: [i32; 17] = [-1, -65536, -(1 << 22), -(1 << 30), i32::MIN, 0, 16, 256, 4096, 65536, 1 << 18, 1 << 20, 1 << 22, 1 << 26, 1 << 30, i32::MAX - 1, i32::MAX];
+
+/// CPU time of the calling thread in seconds (not wall clock: unaffected by the other shards)
+fn thread_cpu() -> f64 {
+    let mut ts = libc::timespec { tv_sec: 0, tv_nsec: 0 };
+    unsafe {
+        libc::clock_gettime(libc::CLOCK_THREAD_CPUTIME_ID, &mut ts);
+    }
+    ts.tv_sec as f64 + ts.tv_nsec as f64 * 1e-9
+}
+/// one step on a state of a few dozen cells may not burn this much CPU time (the slowest
+/// legitimate step on such a state takes microseconds; the threshold is 5 orders above that)
+const STEP_CPU_LIMIT: f64 = 0.4;
+
+/// the fixed small states: operands of every kind present, in three shapes of the top items
+fn base_variants() -> Vec<(&'static str, StateSpec)> {
+    let mixed = base_state();
+    let mut empty = base_state();
+    empty.bvecs.insert(0, vec![]);
+    empty.ivecs.insert(0, vec![]);
+    empty.fvecs.insert(0, vec![]);
+    empty.code.insert(0, ItemSpec::List(vec![]));
+    empty.exec.insert(0, ItemSpec::List(vec![]));
+    empty.graphs.insert(0, GraphSpec::default());
+    empty.input.insert(0, MsgSpec { header: vec![], body: vec![] });
+    let mut atom = base_state();
+    atom.bvecs.insert(0, vec![true]);
+    atom.ivecs.insert(0, vec![7]);
+    atom.fvecs.insert(0, vec![7.5]);
+    atom.code.insert(0, ItemSpec::name("x"));
+    atom.code.insert(1, ItemSpec::Int(4));
+    atom.exec.insert(0, ItemSpec::name("y"));
+    vec![("mixed", mixed), ("empty-tops", empty), ("atom-tops", atom)]
+}
 
 /// a fixed small state with every operand stack populated
 fn base_state() -> StateSpec {
@@ -50,8 +86,7 @@ fn magnitude_checks(ctx: &Ctx) -> SubReport {
         if int_need == 0 {
             return;
         }
-        // RAND vectors draw millions of samples for the largest sizes: cap them lower
-        let base = base_state();
+        for (variant, base) in base_variants() {
         let budget = 64 * 1024 + 8 * state_bytes(&base);
         for pos in 0..int_need.min(4) {
             let mut at_4096 = 0u64;
@@ -67,11 +102,21 @@ fn magnitude_checks(ctx: &Ctx) -> SubReport {
                 rep.evaluations += 1;
                 crate::supervise::journal_instr("C15", name, &s);
                 let (mut st, _) = s.build();
+                let t0 = thread_cpu();
                 let (r, bytes) = alloc::measure(|| guarded(|| with_machine(|m| m.step_named(&mut st, name))));
+                let cpu = thread_cpu() - t0;
                 drop(st);
-                let case = json!({"instruction": name, "integer_position": pos, "operand": v, "state": s.to_json(), "bytes_requested": bytes});
+                let case = json!({"instruction": name, "integer_position": pos, "operand": v, "base": variant, "state": s.to_json(), "bytes_requested": bytes, "cpu_seconds": cpu});
                 if let Err((l, m)) = r {
                     rep.fail(ctx, Fail::new(format!("C15/{}/panic@{}", name, l), format!("operand {} at INTEGER position {}: {}", v, pos, m)), case);
+                    break;
+                }
+                if cpu > STEP_CPU_LIMIT && bytes <= budget {
+                    rep.fail(
+                        ctx,
+                        Fail::new(format!("C15/time-by-operand/{}", name), format!("{} with {} at INTEGER position {} used {:.2} s of CPU time in one step on a state of {} cells ({} base state)", name, v, pos, cpu, base.cells(), variant)),
+                        case,
+                    );
                     break;
                 }
                 if v == 4096 {
@@ -89,17 +134,19 @@ fn magnitude_checks(ctx: &Ctx) -> SubReport {
                     );
                     break;
                 }
-                if v >= 4096 {
+                if v >= 4096 || v <= -65536 {
                     let mut h = Fnv::new();
                     h.str(name);
+                    h.str(variant);
                     h.u64(pos as u64);
                     h.u64(v as u64);
                     rep.nontrivial.insert(h.0);
                 }
                 if ni % 23 == 0 && v == 4096 {
-                    rep.sample(json!({"instruction": name, "operand": v, "integer_position": pos, "bytes_requested": bytes}));
+                    rep.sample(json!({"instruction": name, "operand": v, "base": variant, "integer_position": pos, "bytes_requested": bytes}));
                 }
             }
+        }
         }
     });
     // FLOAT operands: a step must not take time (or memory) growing with the magnitude; time is
@@ -109,7 +156,7 @@ fn magnitude_checks(ctx: &Ctx) -> SubReport {
         let name = &fnames[ni as usize];
         let fp = footprint::get(name).unwrap();
         let need = fp.need.iter().find(|(c, _)| *c == "FLOAT").map(|(_, n)| *n).unwrap_or(0);
-        let base = base_state();
+        for (variant, base) in base_variants() {
         let budget = 64 * 1024 + 8 * state_bytes(&base);
         for pos in 0..need.min(3) {
             for v in [1e3f32, -1e3, 1e6, 1e9, -2.5e8, 3e12, 1e30, f32::MAX, f32::MIN, f32::INFINITY, f32::NAN, 1e-30] {
@@ -121,9 +168,15 @@ fn magnitude_checks(ctx: &Ctx) -> SubReport {
                 rep.evaluations += 1;
                 crate::supervise::journal_instr("C15", name, &s);
                 let (mut st, _) = s.build();
+                let t0 = thread_cpu();
                 let (r, bytes) = alloc::measure(|| guarded(|| with_machine(|m| m.step_named(&mut st, name))));
+                let cpu = thread_cpu() - t0;
                 drop(st);
-                let case = json!({"instruction": name, "float_position": pos, "operand": fjson(v), "state": s.to_json(), "bytes_requested": bytes});
+                let case = json!({"instruction": name, "float_position": pos, "operand": fjson(v), "base": variant, "state": s.to_json(), "bytes_requested": bytes, "cpu_seconds": cpu});
+                if r.is_ok() && cpu > STEP_CPU_LIMIT && bytes <= budget {
+                    rep.fail(ctx, Fail::new(format!("C15/time-by-operand/{}", name), format!("{} with FLOAT {} at position {} used {:.2} s of CPU time in one step ({} base state)", name, v, pos, cpu, variant)), case);
+                    break;
+                }
                 if let Err((l, m)) = r {
                     rep.fail(ctx, Fail::new(format!("C15/{}/panic@{}", name, l), format!("FLOAT operand {} at position {}: {}", v, pos, m)), case);
                     break;
@@ -135,18 +188,20 @@ fn magnitude_checks(ctx: &Ctx) -> SubReport {
                 if v.abs() >= 1e6 {
                     let mut h = Fnv::new();
                     h.str(name);
+                    h.str(variant);
                     h.u64(pos as u64);
                     h.u64(v.to_bits() as u64);
                     rep.nontrivial.insert(h.0);
                 }
             }
         }
+        }
         crate::supervise::journal_clear();
     });
     rep.merge(frep);
     rep.exhaustive = true;
     rep.notes.push("every registered instruction with a FLOAT operand x each FLOAT position x magnitudes up to f32::MAX / inf / NaN (hangs are detected by the supervising parent)".into());
-    rep.notes.push("every registered instruction with an INTEGER operand x each of its INTEGER operand positions x magnitudes {-2^31, -1, 0, 2^4, 2^8, 2^12, 2^16, 2^18, 2^20, 2^22} on a fixed small state; bytes requested during the step measured by a counting allocator".into());
+    rep.notes.push("every registered instruction with an INTEGER operand x each of its INTEGER operand positions x magnitudes {-2^31, -2^30, -1, 0, 2^4, 2^8, 2^12, 2^16, 2^18, 2^20, 2^22, 2^26, 2^30, 2^31-1} x three fixed small base states (mixed tops, empty vectors/lists/graph on top, atoms and singletons on top); bytes requested during the step measured by a counting allocator, CPU time of the step by CLOCK_THREAD_CPUTIME_ID (limit 0.4 s); a sweep stops at its first failure, so magnitudes above the first offending one are not executed".into());
     rep
 }
 
@@ -226,13 +281,13 @@ fn judge_growth(s: &StateSpec) -> CaseResult {
 
 pub fn run(ctx: &Ctx) -> PropReport {
     let mut rep = PropReport::new(
-        "(M) every registered instruction that takes INTEGER operands x each INTEGER operand position x magnitudes from -2^31 to 2^22 on a fixed small state (instructions without size operands are the control group); (P) generated loops (EXEC.Y, EXEC.LOOP, nested EXEC.DUP) around code-building instructions, single-stepped under the default limits with a monitor; non-trivial = (M) operand >= 4096, (P) >= 20 steps executed; distinct = (instruction, position, operand) / program digest",
-        "INV measured by a counting global allocator: bytes requested during one step <= 64 KiB + 8 x (bytes of the state before the step) for every operand value, and the bytes at 2^22 must not exceed 4 x the bytes at 2^12; after every step no CODE/EXEC item has more than max_points_in_program points unless an equal item existed before the step (the instruction that created it is the signature).",
+        "(M) every registered instruction that takes INTEGER operands x each INTEGER operand position x magnitudes from -2^31 to 2^31-1 on three fixed small states (instructions without size operands are the control group); (P) generated loops (EXEC.Y, EXEC.LOOP, nested EXEC.DUP) around code-building instructions, single-stepped under the default limits with a monitor; non-trivial = (M) operand >= 4096, (P) >= 20 steps executed; distinct = (instruction, position, operand) / program digest",
+        "INV measured by a counting global allocator: bytes requested during one step <= 64 KiB + 8 x (bytes of the state before the step) for every operand value, the bytes at 2^22 must not exceed 4 x the bytes at 2^12, and the step uses at most 0.4 s of thread CPU time; after every step no CODE/EXEC item has more than max_points_in_program points unless an equal item existed before the step (the instruction that created it is the signature).",
     );
-    rep.assumptions.push("magnitudes above 2^22 are not executed (extrapolated from the measured scaling); time is represented by bytes requested plus the supervising watchdog".into());
+    rep.assumptions.push("time is the thread CPU time of the step (limit 0.4 s on states of a few dozen cells) plus the supervising watchdog for hangs".into());
     rep.assumptions.push("known findings: one per offending instruction (alloc-by-operand/<NAME>, points-limit/<NAME>), listed in known-findings.txt".into());
     rep.push(magnitude_checks(ctx));
-    rep.push(run_sharded(ctx, "growth-programs", ctx.tier.pick(6_000, 150_000), growth_program, judge_growth, |s| json!({"state": s.to_json(), "program": s.exec[0].render()})));
+    rep.push(run_sharded(ctx, "growth-programs", ctx.tier.pick(30_000, 300_000), growth_program, judge_growth, |s| json!({"state": s.to_json(), "program": s.exec[0].render()})));
     rep
 }
 
@@ -244,11 +299,16 @@ pub fn replay(_ctx: &Ctx, sub: &str, case: &Value) -> Result<(), Fail> {
     }
     let name = case.get("instruction").and_then(|x| x.as_str()).ok_or_else(bad)?;
     let (mut st, _) = s.build();
+    let t0 = thread_cpu();
     let (r, bytes) = alloc::measure(|| guarded(|| with_machine(|m| m.step_named(&mut st, name))));
+    let cpu = thread_cpu() - t0;
     if let Err((l, m)) = r {
         return Err(Fail::new(format!("C15/{}/panic@{}", name, l), m));
     }
     let budget = 64 * 1024 + 8 * state_bytes(&s);
+    if cpu > STEP_CPU_LIMIT && bytes <= budget {
+        return Err(Fail::new(format!("C15/time-by-operand/{}", name), format!("{:.2} s of CPU time in one step", cpu)));
+    }
     if bytes > budget {
         return Err(Fail::new(format!("C15/alloc-by-operand/{}", name), format!("{} bytes requested, budget {}", bytes, budget)));
     }
